@@ -153,6 +153,9 @@ type Req struct {
 	RawContent     []byte `json:"raw_content,omitempty"`
 
 	Controls []Control `json:"controls,omitempty"`
+	// RawControls, when non-nil, replaces Controls: each element is the
+	// complete encoding of one control SEQUENCE (produced by another encoder).
+	RawControls [][]byte `json:"raw_controls,omitempty"`
 	// LongLen forces long-form lengths on the envelope and op (legal BER).
 	LongLen int `json:"long_len,omitempty"`
 }
@@ -226,7 +229,15 @@ func (r *Req) Node() *Node {
 	op.LongLen = r.LongLen
 	env := Seq(Int(r.MsgID), op)
 	env.LongLen = r.LongLen
-	if len(r.Controls) > 0 {
+	if r.RawControls != nil {
+		cn := Cons(Context, 0)
+		for _, rc := range r.RawControls {
+			if n, _, err := ParseOne(rc); err == nil {
+				cn.Children = append(cn.Children, n)
+			}
+		}
+		env.Children = append(env.Children, cn)
+	} else if len(r.Controls) > 0 {
 		env.Children = append(env.Children, ControlsNode(r.Controls))
 	}
 	return env
